@@ -37,14 +37,20 @@ static void mk_ts(TS *t){
   if (n > TMAX + 1) n = TMAX + 1;
   if (cap < n) cap = n;
   if (cap > TMAX + 2) cap = TMAX + 2;
+#ifdef TV   /* case split for the expensive checks (vary=TV:..): n = TV/2 thresholds, spare capacity TV%2 */
+  n = TV / 2; cap = n + TV % 2;
+#endif
   B *st = _Znwm((TMAX + 2) * sizeof(B));      /* operator new, as std::allocator would (models/rt_detalloc.c) */
   T_BEGIN(t) = st; T_END(t) = st + n; T_CAP(t) = st + cap; T_LIMIT(t) = lim;
   for (long i = 0; i < TMAX + 2; i++) if (i < n) wit_e[i] = st[i];
   wit_n = n; wit_cap = cap; wit_lim = lim; }
+/* the witness statics are named in the harness text so that the driver reads them back from a counterexample */
+#define MK_TS(t) TS t; mk_ts(&t); (void)&wit_e; (void)&wit_n; (void)&wit_cap; (void)&wit_lim
 
 /* ---------------------------------------------------------------- constructor: establishes the invariant */
-/* BOUNDED: nothing to bound in the input; unwind covers the (at most 3-element) copies of push_back's reallocation */
-//@check id=t_ctor fn=_ZN4crab10thresholdsIN4ikos8z_numberEEC2Em props=C05 bounded="|T|<=6" unwind=9
+/* NOT bounded: there is no vector input; unwind=9 is structural (three push_backs, each reallocation moves at most
+ * 2 elements) and the unwinding assertions hold for every input */
+//@check id=t_ctor fn=_ZN4crab10thresholdsIN4ikos8z_numberEEC2Em props=C05 unwind=9
 void T_CTOR(TS *self, uint64_t size)
 __CPROVER_requires(FRESH(t_ctor, self, sizeof(TS)))
 __CPROVER_assigns(*self)
@@ -59,14 +65,16 @@ uint32_t T_SIZE(TS *self)
 __CPROVER_requires(FRESH(t_size, self, sizeof(TS)) && t_ok(self))
 __CPROVER_assigns()
 __CPROVER_ensures(__CPROVER_return_value == (uint32_t)t_n(self));
-void h_t_size(void){ TS t; mk_ts(&t); T_SIZE(&t); REACH; }
+void h_t_size(void){ MK_TS(t); T_SIZE(&t); REACH; }
 
 /* ---------------------------------------------------------------- add: preserves the invariant */
 /* add(v): the invariant is preserved (with one more element at most); below the capacity limit v IS a threshold
  * afterwards (inserted, or it replaced its neighbour v-1 / v+1: "don't add consecutive thresholds"); at the
  * capacity limit nothing changes.
- * BOUNDED: |T| <= 6 before the call (<= 7 after). */
-//@check id=t_add fn=_ZN4crab10thresholdsIN4ikos8z_numberEE3addIS2_EEvRKNS1_5boundIT_EE props=C05 bounded="|T|<=6" unwind=9 timeout=600 first_timeout=300 cost=5
+ * BOUNDED: |T| <= 6 before the call (<= 7 after).  Run as a case split (vary=TV): TV = 2n + s fixes the number n of
+ * thresholds (2..6) and the spare capacity s (0: std::vector::insert reallocates, 1: it shifts in place); element
+ * values, the added bound and m_size stay arbitrary.  quick runs 5 of the 10 cases, thorough all 10. */
+//@check id=t_add fn=_ZN4crab10thresholdsIN4ikos8z_numberEE3addIS2_EEvRKNS1_5boundIT_EE props=C05 bounded="|T|<=6" unwind=9 vary=TV:4,7,8,11,12 vary_thorough=TV:4-13 timeout=600 first_timeout=300 cost=5
 void T_ADD(TS *self, B *v)
 __CPROVER_requires(FRESH(t_add, self, sizeof(TS)) && FRESH(t_add, v, sizeof(B)) && t_ok(self) && b_ok(*v) && g_n == t_n(self))   /* g_n: ghost, the number of thresholds on entry */
 __CPROVER_assigns(*self, __CPROVER_object_whole(T_BEGIN(self)))
@@ -76,7 +84,7 @@ __CPROVER_ensures(t_n(self) == g_n || t_n(self) == g_n + 1)
 __CPROVER_ensures(T_LIMIT(self) == __CPROVER_old(T_LIMIT(self)))
 __CPROVER_ensures(((uint64_t)g_n < T_LIMIT(self)) ==> t_mem(self, *v))
 __CPROVER_ensures(((uint64_t)g_n >= T_LIMIT(self)) ==> (t_n(self) == g_n && T_BEGIN(self) == __CPROVER_old(T_BEGIN(self))));
-void h_t_add(void){ TS t; mk_ts(&t); IN(B, v); GHOSTG(long, g_n); T_ADD(&t, &v); REACH; }
+void h_t_add(void){ MK_TS(t); IN(B, v); GHOSTG(long, g_n); T_ADD(&t, &v); REACH; }
 
 /* ---------------------------------------------------------------- get_next / get_prev */
 /* BOUNDED: |T| <= 6 */
@@ -85,14 +93,14 @@ void T_NEXT(B *ret, TS *self, B *v)
 __CPROVER_requires(FRESH(t_next, ret, sizeof(B)) && FRESH(t_next, self, sizeof(TS)) && FRESH(t_next, v, sizeof(B)) && t_ok(self) && b_ok(*v))
 __CPROVER_assigns(*ret)
 __CPROVER_ensures(POST_get_next(self, *v, *ret));
-void h_t_next(void){ TS t; mk_ts(&t); IN(B, v); B r; T_NEXT(&r, &t, &v); REACH; }
+void h_t_next(void){ MK_TS(t); IN(B, v); B r; T_NEXT(&r, &t, &v); REACH; }
 /* BOUNDED: |T| <= 6 */
 //@check id=t_prev fn=_ZNK4crab10thresholdsIN4ikos8z_numberEE8get_prevIS2_EENS1_5boundIT_EERKS7_ props=C05 bounded="|T|<=6" unwind=9
 void T_PREV(B *ret, TS *self, B *v)
 __CPROVER_requires(FRESH(t_prev, ret, sizeof(B)) && FRESH(t_prev, self, sizeof(TS)) && FRESH(t_prev, v, sizeof(B)) && t_ok(self) && b_ok(*v))
 __CPROVER_assigns(*ret)
 __CPROVER_ensures(POST_get_prev(self, *v, *ret));
-void h_t_prev(void){ TS t; mk_ts(&t); IN(B, v); B r; T_PREV(&r, &t, &v); REACH; }
+void h_t_prev(void){ MK_TS(t); IN(B, v); B r; T_PREV(&r, &t, &v); REACH; }
 
 /* ---------------------------------------------------------------- interval::widening_thresholds(x, ts) */
 /* upper bound of both arguments (ghost point and order form), each bound is kept or moves to a threshold beyond it,
@@ -110,6 +118,6 @@ __CPROVER_ensures(POST_wt_upper(*self, *x, *ret))
 __CPROVER_ensures(POST_wt_bounds(*self, *x, ts, *ret))
 __CPROVER_ensures(POST_wt_stationary(*self, *x, *ret))
 __CPROVER_ensures(POST_wt_rank(*self, *x, ts, *ret));
-void h_i_widen_ts(void){ TS t; mk_ts(&t); IN(I, a); IN(I, b); HGHOSTS; I r; I_WT(&r, &a, &b, &t); REACH; }
+void h_i_widen_ts(void){ MK_TS(t); IN(I, a); IN(I, b); HGHOSTS; I r; I_WT(&r, &a, &b, &t); REACH; }
 /* the same contract with the real get_next / get_prev (std::upper_bound / lower_bound) in line */
-//@check id=i_widen_ts_inline fn=_ZNK4ikos8intervalINS_8z_numberEE19widening_thresholdsIN4crab10thresholdsIS1_EEEES2_RKS2_RKT_ tag=i_widen_ts harness=h_i_widen_ts props=C05 bounded="|T|<=6" unwind=9 timeout=600 first_timeout=300 cost=4
+//@check id=i_widen_ts_inline fn=_ZNK4ikos8intervalINS_8z_numberEE19widening_thresholdsIN4crab10thresholdsIS1_EEEES2_RKS2_RKT_ tag=i_widen_ts harness=h_i_widen_ts tier=thorough props=C05 bounded="|T|<=6" unwind=9 timeout=600 first_timeout=300 cost=4
